@@ -1,7 +1,9 @@
 /* h_view.c - iterables and views (C11).  One view expression per script line:
  *
  *   reset
- *   view <expr>
+ *   view [@<unit>] <expr>     with a unit: every Int VALUE (base contents, range arguments, probes) is multiplied by the unit for
+ *                             the library and divided by it again in the log (positions - slice arguments, indices - are not):
+ *                             the view of unit * values is unit * the view of the values, and the specification sees the small ones
  *   expr := A n v..   Array(Int)      L n v..   List(Int)     U n v..  heap Tuple of Ints
  *           B n k..   Table(Int,Int) keys       R n k..  Tree(Int,Int) keys
  *           G k a..   range with k arguments (0..3); the word u stands for _
@@ -35,14 +37,17 @@ static var map_neg(var x) { return new(Int, $I(-c_int(x))); }
 static var mkfn(var (*f)(var)) { struct Function* fn = alloc_root(Function); fn->func = f; return fn; }
 
 #define U_SENTINEL 1000000
-static var argobj(int i) { return hc_is(i, "u") ? _ : (var)new(Int, $I(hc_int(i))); }
-static void arg_desc(int i) { if (hc_is(i, "u")) ev_i(U_SENTINEL); else ev_i(hc_int(i)); }
+#define SAT (1LL << 30)         /* positions saturate in the log: beyond any container here all magnitudes >= 2^30 select the same items */
+static int64_t unit = 1;
+static var argobj(int i, int64_t scale) { return hc_is(i, "u") ? _ : (var)new(Int, $I(hc_int(i) * scale)); }
+static void arg_desc(int i) { int64_t v = hc_int(i); if (hc_is(i, "u")) ev_i(U_SENTINEL); else ev_i(v > SAT ? SAT : v < -SAT ? -SAT : v); }
+static int64_t unscale(int64_t v) { return unit == 1 ? v : v % unit == 0 ? v / unit : -999999; }
 
 /* observed forward iteration of a base container, as a JSON list (Table/Tree: their own order defines the base) */
 static void desc_iter(var c) {
   ev_s("[");
   int first = 1; size_t n = 0, lim = len(c) + 2;
-  foreach (x in c) { if (n++ >= lim) break; if (!first) ev_s(","); first = 0; ev_i(c_int(x)); }
+  foreach (x in c) { if (n++ >= lim) break; if (!first) ev_s(","); first = 0; ev_i(unscale(c_int(x))); }
   ev_s("]");
 }
 
@@ -60,7 +65,7 @@ static var build(void) {
             k == 'B' ? (var)new(Table, Int, Int) : (var)new(Tree, Int, Int);
     volatile var hold = c; (void)hold;
     for (int i = 0; i < n; i++) {
-      int64_t v = hc_int(tok + 2 + i);
+      int64_t v = hc_int(tok + 2 + i) * unit;
       if (k == 'U') push(c, new(Int, $I(v))); else if (k == 'B' || k == 'R') set(c, $I(v), $I(v * 10)); else push(c, $I(v));
     }
     if (hist && n >= 1) {
@@ -88,7 +93,7 @@ static var build(void) {
     int n = (int)hc_int(tok + 1);
     var a[3] = { NULL, NULL, NULL };
     ev_s("[\"range\","); ev_i(n);
-    for (int i = 0; i < n; i++) { a[i] = argobj(tok + 2 + i); ev_s(","); arg_desc(tok + 2 + i); }
+    for (int i = 0; i < n; i++) { a[i] = argobj(tok + 2 + i, unit); ev_s(","); arg_desc(tok + 2 + i); }
     for (int i = n; i < 3; i++) ev_s(",0");
     ev_s("]");
     tok += 2 + n;
@@ -100,7 +105,7 @@ static var build(void) {
     ev_s("[\"slice\","); ev_i(n); ev_s(",");
     volatile var sub = build();
     var a[3] = { NULL, NULL, NULL };
-    for (int i = 0; i < n; i++) { a[i] = argobj(tok + i); ev_s(","); arg_desc(tok + i); }
+    for (int i = 0; i < n; i++) { a[i] = argobj(tok + i, 1); ev_s(","); arg_desc(tok + i); }
     for (int i = n; i < 3; i++) ev_s(",0");
     ev_s("]");
     tok += n;
@@ -139,7 +144,7 @@ static var build(void) {
 static void item(var x) {
   if (x == NULL) { ev_s("-777777"); return; }
   if (type_of(x) == Tuple) { ev_s("["); int first = 1; foreach (y in x) { if (!first) ev_s(","); first = 0; item(y); } ev_s("]"); }
-  else ev_i(c_int(x));
+  else ev_i(unscale(c_int(x)));
 }
 
 int main(int argc, char** argv) {
@@ -157,7 +162,8 @@ int main(int argc, char** argv) {
     if (!hc_is(0, "view")) { fprintf(stderr, "unknown op %s\n", hc_w[0]); return 9; }
     ev_begin("view");
     ev_key("expr");
-    tok = 1; has_map_base = 0;
+    tok = 1; has_map_base = 0; unit = 1;
+    if (hc_w[1][0] == '@') { unit = strtoll(hc_w[1] + 1, NULL, 10); tok = 2; if (unit == 0) unit = 1; }
     volatile var v = NULL;
     const char* bexc = "";
     volatile size_t mark = ev_len;
@@ -214,7 +220,7 @@ int main(int argc, char** argv) {
       ev_key("mems"); ev_s("[");
       if (!istup && !has_map_base && implements_method(v, Get, mem)) {
         for (size_t i = 0; i < sizeof probes / sizeof probes[0]; i++) {
-          volatile int r = -1; try { r = mem(v, $I(probes[i])) ? 1 : 0; } catch (e) { r = -2; }
+          volatile int r = -1; try { r = mem(v, $I(probes[i] * unit)) ? 1 : 0; } catch (e) { r = -2; }
           if (i) ev_s(","); ev_s("["); ev_i(probes[i]); ev_s(","); ev_i(r); ev_s("]");
         }
       }
